@@ -1,9 +1,9 @@
 (* Extraction of the C14 model.  Directives: ExtrOcamlBasic, ExtrOcamlNativeString, nothing else
    (numbers stay the inductive positive/N/Z of the standard library). *)
 From Coq Require Import Extraction ExtrOcamlBasic ExtrOcamlNativeString.
-From NV Require Import Surface.Ast Surface.Indent Surface.Print Surface.Parse Surface.Io Gen.OpTable.
+From NV Require Import Surface.Ast Surface.Indent Surface.Print Surface.Parse Surface.Image Surface.Io Gen.OpTable.
 Extraction "c14_model.ml"
   Print.print Parse.parse repaired_code pinned_code
   OpTable.binops OpTable.prefixops OpTable.max_level OpTable.primops OpTable.keywords
   OpTable.op_spelling OpTable.infix_ops OpTable.postfix_ops
-  q_of_string string_of_q multiline_roundtrips strip_indent min_interpolate_sign.
+  q_of_string string_of_q multiline_roundtrips strip_indent min_interpolate_sign parser_image.
